@@ -55,6 +55,17 @@ Correspondence (every run, against the working tree of /repo):
   EVERY match of `PartialMatcher(prune_auto=False)` of that very step (and the set from the matches the reactor was handed; no
   result that no match gives; no exception inside the pruning).  Finding F30: before /repo 0cd96bf the partial matcher pre-pruned
   by the multiset of estimated host orbits and lost distinct reactions (regress/C11/f30_partial_host_orbit_pruning.json).
+* representation and scale (streams `repr`, `repr-session`, `repr-dedup`, run last): labels that are EQUAL under Python `==` stored under
+  different types within one graph - int / float / numpy.int64 / numpy.float64 / numpy.int32 / numpy.float32, str / numpy.str_, also
+  inside tuple-valued labels; every occurrence drawn, exactly ONE occurrence, or a "parsed" part next to a part "added by hand" - on the
+  tiny-exhaustive classes, random / symmetric / keyed / ITS-like graphs; in sessions (a label re-stored under another type, a bond added
+  with the labels of another one typed by hand); numpy.int64 node ids in the matches or in the orbit arguments of the de-duplication.
+  The exact analysis compares labels with `==`, the model sees one `Val.num` / `Val.str` per class of equal labels (bool stays apart and
+  is never mixed with numbers).  Plus: attributes nobody selects (`weight`, `label`, `id`, `name`, `capacity`, ...), falsy labels
+  (0, 0.0, '', (), bond order 0), multi-digit numbers ((1, 12) next to (11, 2); orders up to 2500), bond orders given as strings
+  ('-', '=', 'SINGLE', '1' next to '1.0'), 10-30 node graphs (paths / cycles longer than twice the round cap of the estimate, 10-13
+  node molecule-like graphs, 4-5 repeated components).  Same comparison and gates as the first two items.  A violation records the
+  graph with the types of its labels (`"as"` next to the value), so that the replay rebuilds the very same Python objects.
 """
 import itertools
 import json
@@ -127,7 +138,9 @@ def impl_wl(G, nk, ek, max_iter):
 def impl_dedup(matches, po, pa, ho, form=None):
     """`form` (optional): how the documented `Iterable` arguments are handed over - {"matches": list|tuple|iter,
     "orbits": list|tuple|iter (the container), "orbit": frozenset|set|tuple|list (each orbit), "anchor": frozenset|set,
-    "host_anchor": None | [host nodes] (documented as kept for API symmetry: the answer must not depend on it)}"""
+    "host_anchor": None | [host nodes] (documented as kept for API symmetry: the answer must not depend on it),
+    "ids": None | "np" (every node id of every match a numpy.int64) | "mixed" (every second match) | "values_np" (host side of the
+    matches only) | "orbits_np" (the orbit / anchor arguments only): ids equal to the ints of the other arguments, of another type}"""
     from synkit.Graph.Matcher.dedup_matches import deduplicate_matches_with_anchor
 
     form = form or {}
@@ -135,6 +148,17 @@ def impl_dedup(matches, po, pa, ho, form=None):
     orb = {"frozenset": frozenset, "set": set, "tuple": tuple, "list": list}[form.get("orbit", "frozenset")]
     anc = {"frozenset": frozenset, "set": set}[form.get("anchor", "frozenset")]
     ms = [{p: h for p, h in m} for m in matches]
+    ids = form.get("ids")
+    if ids:
+        import numpy as np
+        if ids in ("np", "mixed"):
+            ms = [({np.int64(p): np.int64(h) for p, h in m.items()} if (ids == "np" or i % 2) else m) for i, m in enumerate(ms)]
+        elif ids == "values_np":
+            ms = [{p: np.int64(h) for p, h in m.items()} for m in ms]
+        else:
+            po = None if po is None else [[np.int64(x) for x in o] for o in po]
+            ho = None if ho is None else [[np.int64(x) for x in o] for o in ho]
+            pa = None if pa is None else [np.int64(x) for x in pa]
     kw = {}
     if form.get("host_anchor") is not None:
         kw["host_anchor"] = frozenset(form["host_anchor"])
@@ -406,13 +430,15 @@ def sub_graph(G, keep_nodes, keep_edges):
     return H
 
 
-def shrink_graph(ctx, G, nk, ek, mi, gate_coarse):
+def shrink_graph(ctx, G, nk, ek, mi, gate_coarse, relevant=False):
+    """relevant: the failure to keep while shrinking is one that contradicts the property's predicate (not merely the model)"""
     def fails_g(H):
         if H.number_of_nodes() == 0:
             return False
         gj = graphio.graph(H)
         mex, mwl = ctx.lean().ok(graph_requests(gj, nk, ek, mi))
-        return bool(compare_graph(H, nk, ek, mi, mex, mwl, gate_coarse)[0])
+        ds = compare_graph(H, nk, ek, mi, mex, mwl, gate_coarse)[0]
+        return any(d[2] for d in ds) if relevant else bool(ds)
 
     nodes = list(G.nodes)
     edges = [(u, v) for u, v in G.edges]
@@ -469,13 +495,19 @@ def spec_verdict(spec, what, spec_rel, ie):
     return bool(spec_rel and (ie["n_aut"] != prod or ie["orbits"] != spec["orbits"] or "separates" in what or "anchor" in what))
 
 
+def _first_relevant(diffs):
+    """the disagreement to report: one that contradicts the property's own predicate if there is one (a difference from the
+    model that leaves the predicate intact is a broken correspondence only)"""
+    return next((d for d in diffs if d[2]), diffs[0])
+
+
 def report_graph_failure(ctx, G, nk, ek, mi, complete, diffs, stream, tag):
-    small = shrink_graph(ctx, G, nk, ek, mi, complete)
+    small = shrink_graph(ctx, G, nk, ek, mi, complete, relevant=any(d[2] for d in diffs))
     sj = graphio.graph(small)
     mex2, mwl2, spec = ctx.lean().ok(graph_requests(sj, nk, ek, mi) + [{"cmd": "spec.aut", "graph": sj, "node_keys": nk or [], "edge_keys": ek or []}])
     d2, ie2, iw2 = compare_graph(small, nk, ek, mi, mex2, mwl2, complete)
-    what, detail, spec_rel = (d2 or diffs)[0]
-    ctx.violation(what, {"graph": sj, "node_keys": nk, "edge_keys": ek, "max_iter": mi, "kind": "graph"},
+    what, detail, spec_rel = _first_relevant(d2 or diffs)
+    ctx.violation(what, {"graph": graph_typed(small), "node_keys": nk, "edge_keys": ek, "max_iter": mi, "kind": "graph"},
                   {"detail": detail, "impl_exact": ie2, "impl_wl": iw2, "spec": spec, "stream": stream, "tag": tag},
                   no_input=not spec_verdict(spec, what, spec_rel, ie2))
 
@@ -634,16 +666,19 @@ def apply_op(slots, frozen, op):
         slots.append(H if op["view"] else H.copy())
         frozen.append(bool(op["view"]))
     elif k == "setn":
-        slots[op["slot"]].nodes[op["node"]][op["key"]] = graphio.unval(op["val"])
+        slots[op["slot"]].nodes[op["node"]][op["key"]] = unval_typed(op["val"])
     elif k == "sete":
-        slots[op["slot"]][op["u"]][op["v"]][op["key"]] = graphio.unval(op["val"])
+        slots[op["slot"]][op["u"]][op["v"]][op["key"]] = unval_typed(op["val"])
     elif k == "rmnode":
         slots[op["slot"]].remove_node(op["node"])
     elif k == "addedge":
-        slots[op["slot"]].add_edge(op["u"], op["v"], **{a: graphio.unval(b) for a, b in op["attrs"].items()})
+        slots[op["slot"]].add_edge(op["u"], op["v"], **{a: unval_typed(b) for a, b in op["attrs"].items()})
 
 
-def gen_session(rnd):
+def gen_session(rnd, typed=False):
+    """typed=True (stream `repr-session`): the base graph and every value written by an edit are stored under a randomly drawn
+    representation of the SAME value (int / float / numpy scalars, see retype_value), and a quarter of the operations re-store a
+    label that is already there under another type (an edit that changes nothing: every answer must stay what it was)."""
     r = rnd.random()
     if r < 0.45:
         tag, G = base_graph(rnd)
@@ -657,8 +692,14 @@ def gen_session(rnd):
         xn, xe = ["typesGH"], ["standard_order"]
     G = scramble(rnd, G)
     its = tag == "its-like"
-    gj0 = graphio.graph(G)
-    slots, frozen, ops = [graphio.to_nx(gj0)], [False], []
+    if typed:
+        retype_graph(rnd, G, rnd.choice(REPR_MODES))
+    gj0 = graph_typed(G) if typed else graphio.graph(G)
+    slots, frozen, ops = [to_nx_typed(gj0)], [False], []
+
+    def tv(x):
+        # the value as it goes into the operation: typed sessions draw a representation of it
+        return val_typed(retype_value(rnd, x, 0.6)) if typed else graphio.val(x)
 
     def selection():
         r = rnd.random()
@@ -682,7 +723,28 @@ def gen_session(rnd):
         G1 = slots[slot]
         editable = [i for i in live if not frozen[i]]
         op = None
-        if r < 0.45:
+        if typed and editable and rnd.random() < 0.25:
+            # re-store a label that is already there as an equal value of another type
+            slot = rnd.choice(editable)
+            G1 = slots[slot]
+            es = sorted(G1.edges)
+            if es and rnd.random() < 0.6:
+                u, v = rnd.choice(es)
+                ks = [k for k in sorted(G1[u][v]) if retypable(G1[u][v][k])]
+                if ks:
+                    k = rnd.choice(ks)
+                    op = {"op": "sete", "slot": slot, "u": u, "v": v, "key": k, "val": val_typed(retype_value(rnd, G1[u][v][k], 1.0, other=True))}
+            else:
+                v = rnd.choice(sorted(G1.nodes))
+                ks = [k for k in sorted(G1.nodes[v]) if retypable(G1.nodes[v][k])]
+                if ks:
+                    k = rnd.choice(ks)
+                    op = {"op": "setn", "slot": slot, "node": v, "key": k, "val": val_typed(retype_value(rnd, G1.nodes[v][k], 1.0, other=True))}
+            if op is not None:
+                op["same_value"] = True
+        if op is not None:
+            pass
+        elif r < 0.45:
             op = query(slot)
         elif r < 0.53:
             op = {"op": "copy", "src": slot}
@@ -702,7 +764,7 @@ def gen_session(rnd):
             keys = [k for k in G1.nodes[v] if k in POOLS_N] or ["element"]
             k = rnd.choice(keys)
             pool = [x for x in POOLS_N[k] if x != G1.nodes[v].get(k)]
-            op = {"op": "setn", "slot": slot, "node": v, "key": k, "val": graphio.val(rnd.choice(pool))}
+            op = {"op": "setn", "slot": slot, "node": v, "key": k, "val": tv(rnd.choice(pool))}
         elif r < 0.92 and editable and any(slots[i].number_of_edges() for i in editable):
             slot = rnd.choice([i for i in editable if slots[i].number_of_edges()])
             G1 = slots[slot]
@@ -710,7 +772,7 @@ def gen_session(rnd):
             keys = [k for k in G1[u][v] if k in POOLS_E and not (its and k == "order")] or ["order"]
             k = rnd.choice(keys)
             pool = [x for x in (XEDGE["pair"] if (its and k == "order") else POOLS_E[k]) if x != G1[u][v].get(k)]
-            op = {"op": "sete", "slot": slot, "u": u, "v": v, "key": k, "val": graphio.val(rnd.choice(pool))}
+            op = {"op": "sete", "slot": slot, "u": u, "v": v, "key": k, "val": tv(rnd.choice(pool))}
         elif r < 0.96 and editable:
             slot = rnd.choice(editable)
             G1 = slots[slot]
@@ -723,7 +785,8 @@ def gen_session(rnd):
             if non and G1.number_of_edges():
                 a, b = rnd.choice(non)
                 e = rnd.choice(sorted(G1.edges))
-                op = {"op": "addedge", "slot": slot, "u": a, "v": b, "attrs": graphio.attrs(G1[e[0]][e[1]])}
+                # typed: the new bond carries the labels of an existing one, stored by hand under other types
+                op = {"op": "addedge", "slot": slot, "u": a, "v": b, "attrs": {k: tv(x) for k, x in G1[e[0]][e[1]].items()} if typed else graphio.attrs(G1[e[0]][e[1]])}
         if op is None:
             op = query(slot)
         ops.append(op)
@@ -737,7 +800,7 @@ def gen_session(rnd):
 
 def exec_session(sess):
     """-> list of records (op index, snapshot, nk, ek, mi, impl exact, impl wl)"""
-    slots, frozen, recs = [graphio.to_nx(sess["graph"])], [False], []
+    slots, frozen, recs = [to_nx_typed(sess["graph"])], [False], []
     for k, op in enumerate(sess["ops"]):
         if op["op"] != "query":
             apply_op(slots, frozen, op)
@@ -747,7 +810,7 @@ def exec_session(sess):
         nk, ek, mi = op["node_keys"], op["edge_keys"], op["max_iter"]
         ie = impl_exact(G, nk, ek, access=op.get("access", ACCESS))
         iw = impl_wl(G, nk, ek, mi)
-        recs.append((k, gj, nk, ek, mi, ie, iw))
+        recs.append((k, gj, nk, ek, mi, ie, iw, graph_typed(G)))
     return recs
 
 
@@ -755,7 +818,7 @@ def run_sessions(ctx, sessions, stream):
     allrecs = [exec_session(s) for s in sessions]           # the implementation first, session after session, in this process
     reqs = []
     for recs in allrecs:
-        for k, gj, nk, ek, mi, ie, iw in recs:
+        for k, gj, nk, ek, mi, ie, iw, _ in recs:
             reqs += graph_requests(gj, nk, ek, mi)
     reps = ctx.lean().ok(reqs, shards=8)
     j = 0
@@ -765,12 +828,12 @@ def run_sessions(ctx, sessions, stream):
         for op in sess["ops"]:
             ctx.count(f"{stream}:op:" + op["op"])
         failed = False
-        for k, gj, nk, ek, mi, ie, iw in recs:
+        for k, gj, nk, ek, mi, ie, iw, gt in recs:
             mex, mwl = reps[j], reps[j + 1]
             j += 2
             if failed:
                 continue
-            G = graphio.to_nx(gj)
+            G = to_nx_typed(gt)          # the queried graph as it was (labels under the types they were stored with)
             complete = attr_complete(G, nk or NK, ek or EK)
             diffs, _, _ = compare_graph(G, nk, ek, mi, mex, mwl, gate_coarse=complete, ie=ie, iw=iw)
             n = G.number_of_nodes()
@@ -785,10 +848,10 @@ def run_sessions(ctx, sessions, stream):
                 report_graph_failure(ctx, G, nk, ek, mi, complete, fresh, stream, sess.get("tag", "session"))
             else:
                 spec = ctx.lean().ok([{"cmd": "spec.aut", "graph": gj, "node_keys": nk or [], "edge_keys": ek or []}])[0]
-                what, detail, spec_rel = diffs[0]
+                what, detail, spec_rel = _first_relevant(diffs)
                 ctx.violation(what + " (only after the preceding operations of the session)",
                               {"kind": "session", "tag": sess.get("tag"), "graph": sess["graph"], "ops": sess["ops"][:k + 1]},
-                              {"detail": detail, "impl_exact": ie, "impl_wl": iw, "spec": spec, "queried_graph": gj, "stream": stream},
+                              {"detail": detail, "impl_exact": ie, "impl_wl": iw, "spec": spec, "queried_graph": gt, "stream": stream},
                               no_input=not spec_verdict(spec, what, spec_rel, ie))
         if len(ctx.violations) >= 5:
             return
@@ -1217,6 +1280,8 @@ def run_dedup(ctx, cases, stream):
             ctx.count(f"{stream}:call_form:matches={form['matches']}")
             ctx.count(f"{stream}:call_form:orbit_container={form['orbits']}/{form['orbit']}")
             ctx.count(f"{stream}:call_form:host_anchor=" + ("absent" if form["host_anchor"] is None else "given"))
+            if form.get("ids"):
+                ctx.count(f"{stream}:call_form:node_ids=" + form["ids"])
         ctx.count("dedup_matches_in", len(ms))
         if "kept" in model:
             ctx.count("dedup_matches_kept", len(model["kept"]))
@@ -1916,6 +1981,394 @@ def sym_rule_bases(ctx, n, tag="sym"):
     return bases
 
 
+# ---------------------------------------------------------------- representation and scale (streams `repr*`)
+# A label is what Python's `==` says it is: the exact analysis compares labels with `==` (NetworkX categorical matchers), so 1,
+# 1.0, numpy.int64(1), numpy.float64(1.0) and numpy.float32(1.0) are ONE label, and so are "C" and numpy.str_("C"); all of them
+# travel to the Lean model as one `Val.num` / `Val.str` (harness/graphio.py).  Real graphs mix them: a parsed molecule carries
+# float bond orders, a bond added by hand an int, a value read back from an array a numpy scalar.  The streams below store equal
+# labels under different types WITHIN one graph (every occurrence drawn / exactly one occurrence / a "parsed" part next to an
+# "added" part), on top of every kind of graph the other streams draw, and add the rare-but-legal shapes of labels and sizes the
+# small alphabets above leave out: attributes nobody selects but a library default might pick up (`weight`, `label`, `id`, ...),
+# falsy labels (0, 0.0, '', (), a bond order 0), multi-digit numbers (pairs such as (1, 12) next to (11, 2)), bond orders given
+# as strings ('-', '=', 'SINGLE', '1' next to '1.0'), graphs just beyond the sizes of the other streams (10-14 nodes, paths and
+# cycles longer than 2 x max_iter rounds can explore, 4-5 repeated components).  Booleans are never mixed with numbers (the model
+# keeps them apart), and one key never carries strings on some edges and numbers on others (the estimate sorts signatures).
+# A case records its graph WITH the types (`"as"` next to the value; the Lean codec reads only the value), so a replay is exact.
+REPR_INT = ["int", "float", "np.int64", "np.float64", "np.int32", "np.float32"]
+REPR_HALF = ["float", "np.float64", "np.float32"]
+REPR_MODES = ["mixed", "mixed", "one", "one", "split", "none"]
+
+
+def _num_as(h, tag):
+    """the number h/2 stored as `tag`"""
+    import numpy as np
+
+    if tag == "int":
+        return h // 2
+    if tag == "float":
+        return h / 2
+    if tag in ("np.int64", "np.int32", "np.int16", "np.int8"):
+        return getattr(np, tag[3:])(h // 2)
+    if tag in ("np.float64", "np.float32", "np.float16"):
+        return getattr(np, tag[3:])(h / 2)
+    raise ValueError(tag)
+
+
+def _tag_of(x):
+    import numpy as np
+
+    if isinstance(x, np.generic):
+        return "np." + type(x).__name__
+    return type(x).__name__
+
+
+def unval_typed(j):
+    """graphio.unval, honouring the optional type tag `as`"""
+    if j is None:
+        return None
+    tag = j.get("as")
+    if "t" in j:
+        return tuple(unval_typed(y) for y in j["t"])
+    if tag is None:
+        return graphio.unval(j)
+    if "n" in j:
+        return _num_as(j["n"], tag)
+    if "s" in j and tag == "np.str_":
+        import numpy as np
+        return np.str_(j["s"])
+    raise ValueError(j)
+
+
+def val_typed(x):
+    """graphio.val plus the type the value is stored with (absent for the types graphio.unval produces anyway)"""
+    import numpy as np
+
+    if x is None:
+        return None
+    if isinstance(x, (bool, np.bool_)):
+        return {"b": bool(x)}
+    if isinstance(x, np.str_):
+        return {"s": str(x), "as": "np.str_"}
+    if isinstance(x, str):
+        return {"s": x}
+    if isinstance(x, (tuple, list)):
+        return {"t": [val_typed(y) for y in x]}
+    j = dict(graphio.val(x))
+    if isinstance(x, np.generic) or isinstance(x, float):
+        j["as"] = _tag_of(x)
+    return j
+
+
+def graph_typed(G):
+    return {"nodes": [[int(n), {str(k): val_typed(v) for k, v in d.items()}] for n, d in G.nodes(data=True)],
+            "edges": [[int(u), int(v), {str(k): val_typed(x) for k, x in d.items()}] for u, v, d in G.edges(data=True)]}
+
+
+def to_nx_typed(j):
+    import networkx as nx
+
+    G = nx.Graph()
+    for n, a in j["nodes"]:
+        G.add_node(n, **{k: unval_typed(v) for k, v in a.items()})
+    for u, v, a in j["edges"]:
+        G.add_edge(u, v, **{k: unval_typed(x) for k, x in a.items()})
+    return G
+
+
+def retypable(x):
+    import numpy as np
+
+    if isinstance(x, tuple):
+        return any(retypable(y) for y in x)
+    if x is None or isinstance(x, (bool, np.bool_)):
+        return False
+    return isinstance(x, (int, float, str, np.number))
+
+
+def retype_value(rnd, x, p, other=False, to=None):
+    """An EQUAL value (Python ==, same hash) stored under a possibly different type: each number with probability p as one of
+    int / float / numpy.int64 / numpy.float64 / numpy.int32 / numpy.float32 (the integer types for integral values only), each
+    string with probability p/3 as numpy.str_.  other=True: the drawn type differs from the present one; to: a fixed target."""
+    import numpy as np
+
+    if isinstance(x, tuple):
+        return tuple(retype_value(rnd, y, p, other, to) for y in x)
+    if x is None or isinstance(x, (bool, np.bool_)):
+        return x
+    if isinstance(x, str):
+        if to is not None:
+            return x
+        if other:
+            return str(x) if isinstance(x, np.str_) else np.str_(x)
+        return np.str_(x) if rnd.random() < p / 3 else x
+    if not isinstance(x, (int, float, np.number)):
+        return x
+    if rnd.random() >= p:
+        return x
+    h = graphio.val(x)["n"]
+    pool = REPR_INT if h % 2 == 0 else REPR_HALF
+    if to is not None:
+        return _num_as(h, to if to in pool else "float" if to == "int" else "np.float64")
+    if other:
+        pool = [t for t in pool if t != _tag_of(x)]
+    y = _num_as(h, rnd.choice(pool))
+    assert y == x and hash(y) == hash(x), (x, y)
+    return y
+
+
+def retype_graph(rnd, G, mode):
+    """Store labels of G under other types, in place; the labelled graph (labels compared with ==) stays the same.
+    mixed: every occurrence drawn independently; one: exactly ONE occurrence (the sharpest case: a symmetric graph in which only
+    the type of one label differs); split: the nodes / edges met first keep their types ("the parsed part"), all later ones carry
+    one other type ("added by hand" / "read back from an array"); none: control."""
+    if mode == "none":
+        return mode
+    slots = [("n", v, k) for v in G.nodes for k in sorted(G.nodes[v]) if retypable(G.nodes[v][k])]
+    slots += [("e", (u, v), k) for u, v in G.edges for k in sorted(G[u][v]) if retypable(G[u][v][k])]
+    if not slots:
+        return "none"
+
+    def cell(kind, w):
+        return G.nodes[w] if kind == "n" else G[w[0]][w[1]]
+
+    if mode == "mixed":
+        for kind, w, k in slots:
+            d = cell(kind, w)
+            d[k] = retype_value(rnd, d[k], 0.5)
+    elif mode == "one":
+        num = [sl for sl in slots if not isinstance(cell(sl[0], sl[1])[sl[2]], str)]
+        kind, w, k = rnd.choice(num if num and rnd.random() < 0.85 else slots)
+        d = cell(kind, w)
+        d[k] = retype_value(rnd, d[k], 1.0, other=True)
+    else:
+        to = rnd.choice(["int", "np.float64", "np.int64", "float", "np.float32"])
+        cut = rnd.randint(1, max(1, len(slots) - 1))
+        ne = [sl for sl in slots if sl[0] == "e"]
+        later = slots[cut:] if rnd.random() < 0.5 or not ne else ne[rnd.randrange(len(ne)):]
+        for kind, w, k in later:
+            d = cell(kind, w)
+            d[k] = retype_value(rnd, d[k], 1.0, to=to)
+    return mode
+
+
+SPECT_E = ["weight", "label", "id", "name", "capacity", "length", "color"]
+SPECT_N = ["label", "id", "name", "weight", "color", "atom_map"]
+
+
+def add_spectators(rnd, G):
+    """Attributes nobody selects, with values that would break every symmetry if anything picked them up (on some graphs: on a
+    part of the nodes / edges only)."""
+    ke = rnd.sample(SPECT_E, rnd.randint(1, 3))
+    kn = rnd.sample(SPECT_N, rnd.randint(0, 2))
+    part = rnd.random() < 0.3
+    for i, (u, v) in enumerate(G.edges):
+        for k in ke:
+            if part and rnd.random() < 0.5:
+                continue
+            G[u][v][k] = ("e%d" % i) if k in ("label", "name", "color") else rnd.choice([i + 1, (i + 1) / 2, float(i)])
+    for i, v in enumerate(G.nodes):
+        for k in kn:
+            if part and rnd.random() < 0.5:
+                continue
+            G.nodes[v][k] = ("a%d" % i) if k in ("label", "name", "color") else i + 1
+    return ke, kn
+
+
+FALSY_N = {"element": ["", "C", "*", "0"], "charge": [0, 1, -1], "hcount": [0, 1, 2], "tag": ["", "a", "*"],
+           "neighbors": [(), ("C",), ("",)], "isotope": [0, 13]}
+FALSY_E = {"order": [0, 1.0, 2.0], "standard_order": [0, 1.0, -1.0], "ez": ["", "E", "Z"], "tag": ["", "a", "*"], "pair": [(), (0, 0), (1.0, 0), (0, 1.0)]}
+BIG_N = {"hcount": [1, 11, 12, 21, 111, 2], "charge": [1, 2, 12, -12, 10, 21, -1, -2], "isotope": [13, 235, 2350, 23, 35, 1],
+         "element": ["C", "Cl", "C1", "l"]}
+BIG_E = {"order": [1.0, 10.0, 12.5, 25.0, 50.0, 2500.0, 1.5, 15.0, 2.0], "standard_order": [1.0, -1.0, 10.0, -10.0, 11.0, 0.5, 100.0]}
+STR_ORDERS = [{1.0: "-", 2.0: "=", 1.5: ":", 3.0: "#"}, {1.0: "SINGLE", 2.0: "DOUBLE", 1.5: "AROMATIC", 3.0: "TRIPLE"},
+              {1.0: "1", 2.0: "2", 1.5: "1.5", 3.0: "3"}, {1.0: "1", 2.0: "1.0", 1.5: "1.50", 3.0: " 1"}, {1.0: "", 2.0: "=", 1.5: ":", 3.0: "#"}]
+
+
+def _spread(rnd, G, kind, k, pool, need=None):
+    """Write key k on every node / edge of G: one base value and ONE or TWO occurrences of another (symmetric skeleton, only this
+    label differs), or scattered values.  need: a value that must occur."""
+    items = sorted(G.nodes) if kind == "n" else sorted(G.edges)
+    if not items:
+        return
+    base = rnd.choice(pool)
+    others = [x for x in pool if x != base] or [base]
+    if need is not None and base != need:
+        others = [need]
+    style = rnd.choice(["one", "one", "two", "scatter"])
+    vals = {it: base for it in items}
+    if style == "scatter":
+        for it in items:
+            if rnd.random() < 0.35:
+                vals[it] = rnd.choice(others)
+    else:
+        for it in rnd.sample(items, min(len(items), 1 if style == "one" else 2)):
+            vals[it] = rnd.choice(others)
+    for it, x in vals.items():
+        if kind == "n":
+            G.nodes[it][k] = x
+        else:
+            G[it[0]][it[1]][k] = x
+
+
+def rare_case(rnd):
+    """-> (tag, G, nk, ek): one of the rare-but-legal label shapes on a (mostly symmetric) skeleton"""
+    kind = rnd.choice(["spectator", "spectator", "falsy", "falsy", "falsy", "bignum", "bignum", "strorder", "strorder"])
+    _, G = base_graph(rnd)
+    nk, ek = list(NK), list(EK)
+    if kind == "spectator":
+        if rnd.random() < 0.4:
+            _, xn, xe = decorate(rnd, G)
+            nk, ek = select_keys(rnd, xn, xe)
+        add_spectators(rnd, G)
+        if rnd.random() < 0.3:
+            nk, ek = None, None
+    elif kind == "falsy":
+        for _ in range(rnd.randint(1, 2)):
+            if rnd.random() < 0.5 or not G.number_of_edges():
+                k = rnd.choice(sorted(FALSY_N))
+                falsy = [x for x in FALSY_N[k] if not x]
+                _spread(rnd, G, "n", k, FALSY_N[k], need=rnd.choice(falsy))
+                if k not in nk:
+                    nk.append(k)
+            else:
+                k = rnd.choice(sorted(FALSY_E))
+                falsy = [x for x in FALSY_E[k] if not x]
+                _spread(rnd, G, "e", k, FALSY_E[k], need=rnd.choice(falsy))
+                if k not in ek:
+                    ek.append(k)
+    elif kind == "bignum":
+        ks = rnd.sample(sorted(BIG_N), rnd.randint(2, 3))
+        for k in ks:
+            _spread(rnd, G, "n", k, BIG_N[k])
+            if k not in nk:
+                nk.append(k)
+        if G.number_of_edges():
+            for k in rnd.sample(sorted(BIG_E), rnd.randint(1, 2)):
+                _spread(rnd, G, "e", k, BIG_E[k])
+                if k not in ek:
+                    ek.append(k)
+        if rnd.random() < 0.4:
+            rnd.shuffle(nk)
+    else:
+        table = rnd.choice(STR_ORDERS)
+        if G.number_of_edges() and rnd.random() < 0.6:
+            _spread(rnd, G, "e", "order", [1.0, 2.0, 1.5, 3.0])
+        for u, v in G.edges:
+            G[u][v]["order"] = table[float(G[u][v].get("order", 1.0))]
+        if rnd.random() < 0.3:
+            nk, ek = None, None
+    return "rare-" + kind, G, nk, ek
+
+
+def scale_case(rnd):
+    """-> (tag, G, max_iter): just beyond the sizes of the other streams; group orders stay small by construction"""
+    import networkx as nx
+
+    r = rnd.random()
+    if r < 0.3:
+        return "scale-mol10-13", mol_like(rnd, rnd.randint(10, 13), uniform=rnd.random() < 0.15), rnd.choice([0, 1, 2, 3, 10, 10, 5, 20])
+    if r < 0.45:
+        parts = []
+        base = mol_like(rnd, rnd.randint(1, 3), uniform=rnd.random() < 0.7)
+        for _ in range(rnd.randint(4, 5)):
+            parts.append(base.copy() if rnd.random() < 0.8 else mol_like(rnd, rnd.randint(1, 3), uniform=True))
+        G = nx.Graph()
+        for g in parts:
+            G = nx.disjoint_union(G, g)
+        return "scale-components4-5", G, rnd.choice([0, 1, 2, 10])
+    k = rnd.choice(["path", "path", "cycle", "ladder", "caterpillar"])
+    if k == "path":
+        g = nx.path_graph(rnd.randint(10, 30))
+    elif k == "cycle":
+        g = nx.cycle_graph(rnd.randint(10, 26))
+    elif k == "ladder":
+        g = nx.ladder_graph(rnd.randint(5, 9))
+    else:
+        g = nx.path_graph(rnd.randint(8, 14))
+        spine = list(g.nodes)
+        for v in rnd.sample(spine, rnd.randint(1, 4)):
+            g.add_edge(v, g.number_of_nodes())
+    for v in g.nodes:
+        g.nodes[v].update(element="C", charge=0)
+    for u, v in g.edges:
+        g[u][v]["order"] = 1.0
+    nodes = sorted(g.nodes)
+    r = rnd.random()
+    if r < 0.35:
+        g.nodes[rnd.choice([nodes[0], nodes[-1], rnd.choice(nodes)])]["element"] = "N"      # a label at one end / somewhere
+    elif r < 0.55:
+        u, v = rnd.choice(sorted(g.edges))
+        g[u][v]["order"] = 2.0
+    elif r < 0.7:
+        a = rnd.choice(nodes)
+        g.nodes[a]["element"] = "N"
+        g.nodes[nodes[len(nodes) - 1 - nodes.index(a)]]["element"] = "N"                     # the mirror image as well
+    # the estimate's round cap: max_iter rounds see max_iter bonds far, the default is 10
+    return "scale-" + k, g, rnd.choice([0, 1, 2, 3, 5, 10, 10, 10, 12, 40])
+
+
+def scramble_connected(rnd, G):
+    """As `scramble` (fresh non-contiguous ids, shuffled edge order and orientation), but the nodes are inserted component by
+    component in a breadth-first order from a random start: every node but the first of its component has an earlier neighbour.
+    (The model's enumerator extends a partial map in insertion order; on 20-30 node paths and cycles an arbitrary order makes it
+    explore exponentially many partial maps, a connected order keeps it linear.  The answers do not depend on the order.)"""
+    import networkx as nx
+
+    nodes = list(G.nodes())
+    ren = dict(zip(nodes, rnd.sample(range(0, 3 * len(nodes) + 5), len(nodes))))
+    comps = [sorted(c) for c in nx.connected_components(G)]
+    rnd.shuffle(comps)
+    order = []
+    for comp in comps:
+        seen, queue = set(), [rnd.choice(comp)]
+        seen.add(queue[0])
+        while queue:
+            v = queue.pop(0)
+            order.append(v)
+            nb = sorted(w for w in G.neighbors(v) if w not in seen)
+            rnd.shuffle(nb)
+            seen.update(nb)
+            queue += nb
+    H = nx.Graph()
+    for v in order:
+        H.add_node(ren[v], **dict(G.nodes[v]))
+    es = list(G.edges(data=True))
+    rnd.shuffle(es)
+    for u, v, d in es:
+        if rnd.random() < 0.5:
+            u, v = v, u
+        H.add_edge(ren[u], ren[v], **dict(d))
+    return H
+
+
+def repr_case(rnd, base, mode=None):
+    """One case of stream `repr`: a graph of kind `base`, labels stored under the types `mode` says."""
+    nk, ek, m = NK, EK, rnd.choice([0, 1, 2, 3, 10, 10, 10])
+    if base == "plain":
+        tag, G = base_graph(rnd)
+        r = rnd.random()
+        nk, ek = (NK, EK) if r < 0.7 else (None, None) if r < 0.9 else (["element"], EK)
+    elif base == "keys":
+        tag, G, nk, ek = keys_case(rnd, missing=rnd.random() < 0.1)
+    elif base == "its":
+        tag, G, nk, ek = its_like(rnd)
+    elif base == "rare":
+        tag, G, nk, ek = rare_case(rnd)
+    else:
+        tag, G, m = scale_case(rnd)
+    G = scramble_connected(rnd, G) if base == "scale" else scramble(rnd, G)
+    mode = retype_graph(rnd, G, mode or rnd.choice(REPR_MODES))
+    return f"{mode}/{tag}", G, nk, ek, m
+
+
+def dedup_id_form(rnd, host_nodes):
+    """Call forms of stream `repr-dedup`: node ids that are equal to the ints of the other arguments but of another type
+    (numpy.int64 from an array of indices): in every match, in every second match, in the orbit arguments only."""
+    return {"matches": rnd.choice(["list", "tuple", "iter"]), "orbits": rnd.choice(["list", "tuple", "iter"]),
+            "orbit": rnd.choice(["frozenset", "set", "tuple", "list"]), "anchor": rnd.choice(["frozenset", "set"]),
+            "host_anchor": None, "ids": rnd.choice(["np", "mixed", "mixed", "orbits_np", "values_np"])}
+
+
 # ---------------------------------------------------------------- entry points
 def load_regress():
     d = ROOT / "regress" / "C11"
@@ -1946,7 +2399,7 @@ def run_case_dict(ctx, c, stream):
     elif c.get("kind") == "reactor-history":
         run_histories(ctx, history_pool(), [c["steps"]], 120.0, stream, shrink=False)
     else:
-        G = graphio.to_nx(c["graph"])
+        G = to_nx_typed(c["graph"])
         run_graphs(ctx, [("regress", G, c["node_keys"], c["edge_keys"], c.get("max_iter", 10))], stream)
 
 
@@ -1977,8 +2430,11 @@ def run(ctx):
         "arguments the reactor passes, partial mappings included, glued by the reactor's own internals",
         "'never separates an orbit' is gated on graphs whose nodes/edges all carry the selected attributes (the exact matcher reads a missing "
         "charge as 0 / element as '*' / order as 1.0, the estimate reads it as None); graphs with missing attributes are compared impl = model only",
-        "attribute values of one key have one type (numbers in half-units, strings, booleans, tuples), so Python == is structural equality; "
-        "no boolean edge labels (the exact matcher reads a missing edge label as 1.0 and Python has 1.0 == True)",
+        "attribute values of one key have one KIND (numbers in half-units, strings, booleans, tuples), so Python == is structural equality on the "
+        "encoded values; within the kind 'number' the Python types are mixed in streams repr* (int, float, numpy integer and float scalars: equal "
+        "values are one label, with equal hashes and a total order among them), within 'string' str and numpy.str_; no boolean next to numbers under "
+        "one key, no boolean edge labels (the exact matcher reads a missing edge label as 1.0 and Python has 1.0 == True); no strings next to numbers "
+        "under one edge key (the estimate sorts neighbour signatures: Python cannot order them)",
         "reactor stream: substrates are SMILES strings or SynGraph objects built from them as SynReactor._wrap_input does; templates are mapped "
         "reactions turned into ITS graphs by rsmi_to_its (centre or full), reaction strings, or SynRule objects built as _wrap_template does; mode "
         "from the template reaction as in C05 (explicit centre hydrogens -> defaults, none -> implicit_temp=True, explicit_h=False; mixed skipped); "
@@ -2014,7 +2470,17 @@ def run(ctx):
                     "frozenset/set x host_anchor absent / random subset of host nodes / all host nodes.  Pruning fall-back: every reactor step "
                     "with >= 2 raw matches, max_group=0.  Stream reactor-partial (24 histories quick / 400 thorough): half corpus pairs whose "
                     "pattern has >= 2 components, half generated symmetric-skeleton rules; histories as in stream reactor, each step "
-                    "partial=True with probability 0.8; reference of a partial step: every match of PartialMatcher(prune_auto=False).")
+                    "partial=True with probability 0.8; reference of a partial step: every match of PartialMatcher(prune_auto=False).  "
+                    "Streams repr* (last; quick: 772 + 1100 graphs, 100 sessions, 200 dedup calls): every labelled graph on <= 4 nodes once more with "
+                    "each numeric / string label occurrence stored with probability 1/2 as a drawn type (thorough: three passes, one of them with "
+                    "exactly ONE occurrence retyped); 300 symmetric-family / molecule-like / disconnected graphs under default keys, 200 keys-stream "
+                    "graphs (10% with labels missing), 100 ITS-like graphs, 400 rare-shape graphs (2/9 unselected attributes on edges and nodes, 3/9 "
+                    "falsy labels, 2/9 multi-digit numbers under 2-3 node keys and 1-2 edge keys, 2/9 string bond orders from 5 vocabularies; each key "
+                    "written as one base value with one or two deviating occurrences, or scattered), 100 scale graphs (30% molecule-like 10-13 nodes, "
+                    "15% 4-5 repeated components, else paths 10-30 / cycles 10-26 / ladders 10-18 / caterpillars with one label, one order, a mirror "
+                    "pair of labels changed or none; max_iter from {0,1,2,3,5,10,12,40}; nodes inserted in a breadth-first order), every graph x "
+                    "type mode from {mixed x2, one x2, split, none}; typed sessions as stream session with 25% re-store operations; dedup: 200 of "
+                    "the dedup cases again with node ids numpy.int64 in every match / every second match / the host side / the orbit arguments.")
     ctx.nontrivial_rule = ("graph case: >=2 nodes and (a non-trivial automorphism or >=2 components), distinct as encoded graph + keys + max_iter; "
                            "dedup case: >=2 matches and at least one orbit argument, distinct as JSON value; session query: as graph case on the "
                            "snapshot; entry case: as graph case, distinct as graph + id kind + keys + max_iter + flag + estimate route; "
@@ -2024,6 +2490,47 @@ def run(ctx):
         _run_streams(ctx)
     finally:
         close_pool()
+
+
+def _run_repr_streams(ctx, dcases, stamp=lambda name: None):
+    rnd = ctx.rnd
+    # representation and scale: equal labels stored under different types within one graph, unselected attributes, falsy labels,
+    # multi-digit numbers, string-valued bond orders, sizes just beyond the other streams (after the existing streams, so that these
+    # draw what they drew before)
+    nv3 = len(ctx.violations)
+    if not ctx.violations:
+        cases = []
+        for rep_ in range(1 if ctx.quick else 3):
+            for n, E, nl, el in tiny_classes(4):
+                G = scramble(rnd, mk_graph(list(range(n)), E, ["CN"[x] for x in nl], None, [1.0 + x for x in el]))
+                mode = retype_graph(rnd, G, "mixed" if rep_ != 1 else "one")
+                cases.append((f"{mode}/tiny-n{n}", G, NK, EK, 10))
+        nplain, nkeyed, nits_, nrare, nscale, nsess_, ndd = (300, 200, 100, 400, 100, 100, 200) if ctx.quick else (5000, 4000, 2000, 6000, 1500, 1500, 3000)
+        for base, k in (("plain", nplain), ("keys", nkeyed), ("its", nits_), ("rare", nrare), ("scale", nscale)):
+            for _ in range(k):
+                cases.append(repr_case(rnd, base))
+        for c in cases:
+            ctx.count("repr:types:" + c[0].split("/")[0])
+        run_graphs(ctx, cases, "repr")
+        stamp("repr")
+    if not ctx.violations:
+        run_sessions(ctx, [gen_session(rnd, typed=True) for _ in range(nsess_)], "repr-session")
+        stamp("repr-session")
+    if not ctx.violations:
+        # the same de-duplication calls with node ids of another integer type on one side
+        idcases = []
+        for c in rnd.sample(dcases, min(len(dcases), ndd)):
+            hs = sorted({h for m in c[1] for _, h in m})
+            idcases.append(tuple(c[:6]) + (dedup_id_form(rnd, hs),))
+        run_dedup(ctx, idcases, "repr-dedup")
+        stamp("repr-dedup")
+    ctx.obligation("representation and scale: equal labels stored as int / float / numpy scalars (str / numpy.str_) within one graph - every "
+                   "occurrence, exactly one, a part - on tiny-exhaustive, random, symmetric, keyed, ITS-like graphs, in sessions (labels re-stored "
+                   "under another type, bonds added by hand) and node ids of the matches handed to the de-duplication; unselected attributes "
+                   "(weight, label, id, name, capacity, ...), falsy labels, multi-digit numbers, string-valued bond orders, 10-30 node graphs and "
+                   "4-5 repeated components: impl == model (which sees ONE value per class of equal labels), estimate coarser than exact",
+                   len(ctx.violations) == nv3)
+
 
 
 def _run_streams(ctx):
@@ -2180,6 +2687,8 @@ def _run_streams(ctx):
         stamp("reactor-partial")
     ctx.obligation("rule application with partial=True (matches, partial ones included, from PartialMatcher): the result set with pruning equals the "
                    "set obtained from every match of PartialMatcher(prune_auto=False) of the same query", len(ctx.violations) == nv2)
+
+    _run_repr_streams(ctx, dcases, stamp)
 
 
 def replay(ctx, case):
